@@ -1683,6 +1683,8 @@ func (idx *MergeSetIndex) WriteDeleteTsids(tsids []uint64) error {
 	} else {
 		return errors.New("curDeleted must be *uint64set.Set")
 	}
+	// cached tag filter results may still hold the deleted tsids
+	invalidateTagCache()
 
 	return idx.tb.AddItems(items)
 }
